@@ -2,6 +2,7 @@ import Iec.Lemmas.Srv104
 import Iec.Lemmas.Srv104Activate
 import Iec.Props.C05
 import Iec.Lemmas.Srv104ITx
+import Iec.Lemmas.Srv104EvFree
 /-
 C07 — CS104 server data-transfer state machine (STARTDT / STOPDT / TESTFR).
 
@@ -17,7 +18,10 @@ Theorems on `Iec.Srv104.handleMessage` (step properties, for every state of the 
 (responses), `periodic_not_started` (events: `sendWaitingASDUs` runs only in state STARTED),
 and C05 `not_started_closes` for I-frames.  The STOPDT sequence: `stopdt_sequence` (the complete output of the step: S-frame first,
 STOPDT con only without unconfirmed events, resulting state) and `stopdt_con_after_ack` (the deferred con in
-UNCONFIRMED_STOPPED).  Every transmission site: `iframes_only_on_started_connection` (`Lemmas/Srv104ITx.lean`).
+UNCONFIRMED_STOPPED).  Every transmission site: `iframes_only_on_started_connection` (`Lemmas/Srv104ITx.lean`).  Over every history:
+`iframes_only_while_activated` (`Lemmas/Srv104EvFree.lean` + `Lemmas/Srv104LifeLog.lean`): every I-format APDU in the wire log
+was written while the last event of its slot was ACTIVATED - after the STARTDT handling that reported it and before any
+DEACTIVATED (STOPDT act, activation of another connection of the group) or CLOSED.
 -/
 namespace Iec.Props.C07
 open Iec.Srv104 Iec.KWindow
@@ -237,5 +241,26 @@ theorem no_iframe_unless_started (s : Slave) (j : Nat) (h : (s.conn j).state ≠
     ∃ l, (handleTcpConnection s j).log = s.log ++ l ∧ ∀ c b, Obs.tx c b ∈ l → ¬ isI b := by
   obtain ⟨l, e, p⟩ := iext_handleTcpConnection s j
   exact ⟨l, e, fun c b hm hi => h (p c b hm hi).2⟩
+
+/-! ### every history -/
+
+/-- **I-format APDUs only on a started connection, over every history.** From a freshly created server, after any sequence
+of ticks (accept, receive, STARTDT / STOPDT, transmission of events and replies, time-outs, reaping), enqueues and
+environment events: take ANY I-format APDU in the wire log; the connection events reported for its slot before it end with
+ACTIVATED (`lifeOf … = 2`: OPENED, then ACTIVATED / DEACTIVATED alternating, the last one ACTIVATED) - i.e. it was written
+after the server handled STARTDT act on that connection (which reports ACTIVATED and writes STARTDT con, `startdt_answered`)
+and before STOPDT act, deactivation by another connection, or the end of the connection (which report DEACTIVATED / CLOSED
+first, `stopdt_sequence`). -/
+theorem iframes_only_while_activated (p : Params) (gs : List (String × List (Bool × List Nat))) (ops : List LOp)
+    (l1 l2 : List Obs) (c : Nat) (b : List Nat) (hlog : (ops.foldl LOp.apply (create p gs)).log = l1 ++ Obs.tx c b :: l2)
+    (hI : isI b) : lifeOf l1 c = 2 :=
+  (run_jinv p gs ops).2 l1 c b l2 hlog hI
+
+/-- non-vacuity on a concrete history: connect, STARTDT act, one event enqueued - the log ends with an I-format APDU on
+slot 0, and the events before it are OPENED, ACTIVATED -/
+example : let s := ([LOp.env (lenvPending {}), .tick, .env (lenvFeed 0 [0x68, 4, 7, 0, 0, 0]), .tick,
+      .enqueue [1, 1, 3, 0, 1, 0, 5, 0, 0, 1], .tick] : List LOp).foldl LOp.apply (create lifeDemoParams [])
+    s.log.map (fun o => match o with | .ev _ w => w | .tx _ f => if f.getD 2 1 % 2 = 0 then "I" else "tx" | _ => "?") =
+      ["OPENED", "ACTIVATED", "tx", "I"] := by decide
 
 end Iec.Props.C07
